@@ -184,6 +184,8 @@ def run_check(check, tier, seed, jobs=None):
     jobs = int(os.environ.get("VERIF_JOBS", jobs))
     total = Result()
     errors = []
+    from mc import world
+    world.scratch_root()      # workers nest their scratch below this root
     ctx = multiprocessing.get_context("fork")
     # determinism guard: first group is executed twice, in two workers
     work = [groups[0]] + groups
